@@ -106,6 +106,60 @@ def reqLeftOfOr (rightVars : List VarId) (req : ReqFn) : ReqFn := fun wt =>
   | _ => rightVars ++ req none                 -- when_false True or None
 def reqRightOfOr (req : ReqFn) : ReqFn := fun wt => req wt
 
+/-- One left value of an AND (`AND._evaluate__`'s loop body); `evalR` evaluates the right operand. -/
+def andStep (P : Params V) (caching : Bool) (π : Path) (req : ReqFn) (ywf : Bool) (rvars : List VarId)
+    (evalR : Bnd V → St → List (Bnd V × Bool) × St)
+    (acc : List (Bnd V × Bool) × St) (lv : Bnd V × Bool) : List (Bnd V × Bool) × St :=
+  let n0 := getNode acc.2 π
+  let n := { n0 with rcache := mkCache P rvars n0.rcache }
+  if ywf && lv.2 then
+    -- a false left value is forwarded unless it is a duplicate
+    let d := isDup P req true lv.1 n
+    if d.1 then (acc.1, setNode acc.2 π d.2) else (acc.1 ++ [(lv.1, true)], setNode acc.2 π d.2)
+  else
+    let chk := if caching then n.rcache.check (toAsg P rvars lv.1) else (false, n.rcache)
+    let n1 := { n with rcache := chk.2 }
+    if chk.1 then
+      let fc := fromCache P req rvars n1.rcache lv.1 n1
+      (acc.1 ++ fc.1, setNode acc.2 π fc.2)
+    else
+      let st1 := setNode acc.2 π n1
+      let rr := evalR lv.1 st1
+      let n2 := getNode rr.2 π
+      let c2 := if caching then rr.1.foldl (fun c p => c.insert (toAsg P rvars p.1) p.2) n2.rcache else n2.rcache
+      (acc.1 ++ rr.1, setNode rr.2 π { n2 with rcache := c2 })
+
+/-- One right value under a false left value of an ElseIf: true right outputs are dropped when they are
+    duplicates; every kept output is cached. -/
+def orInner (P : Params V) (caching : Bool) (π : Path) (req : ReqFn) (ywf : Bool) (rvars : List VarId)
+    (a2 : List (Bnd V × Bool) × St) (rv : Bnd V × Bool) : List (Bnd V × Bool) × St :=
+  let nn := getNode a2.2 π
+  if rv.2 && !ywf then a2
+  else
+    let d := if !rv.2 then isDup P req false rv.1 nn else (false, nn)
+    if d.1 then (a2.1, setNode a2.2 π d.2)
+    else
+      let c2 := if caching then d.2.rcache.insert (toAsg P rvars rv.1) rv.2 else d.2.rcache
+      (a2.1 ++ [rv], setNode a2.2 π { d.2 with rcache := c2 })
+
+/-- One left value of an ElseIf (`ElseIf._evaluate__`'s loop body). -/
+def orStep (P : Params V) (caching : Bool) (π : Path) (req : ReqFn) (ywf : Bool) (rvars : List VarId)
+    (evalR : Bnd V → St → List (Bnd V × Bool) × St)
+    (acc : List (Bnd V × Bool) × St) (lv : Bnd V × Bool) : List (Bnd V × Bool) × St :=
+  if lv.2 then
+    let n0 := getNode acc.2 π
+    let n := { n0 with rcache := mkCache P rvars n0.rcache }
+    let chk := if caching then n.rcache.check (toAsg P rvars lv.1) else (false, n.rcache)
+    let n1 := { n with rcache := chk.2 }
+    if chk.1 then
+      let fc := fromCache P req rvars n1.rcache lv.1 n1
+      (acc.1 ++ fc.1, setNode acc.2 π fc.2)
+    else
+      let st1 := setNode acc.2 π n1
+      let rr := evalR lv.1 st1
+      rr.1.foldl (orInner P caching π req ywf rvars) (acc.1, rr.2)
+  else (acc.1 ++ [(lv.1, false)], acc.2)
+
 variable (W : World V) (D : VarId → List V) (P : Params V) (caching : Bool)
 
 /-- Evaluate a condition with its state.  Returns the outputs in order and the new state. -/
@@ -129,25 +183,8 @@ def evalM : Cond V → Path → ReqFn → Bnd V → Bool → St → List (Bnd V 
   | .pred inv name args, _, _, β, ywf, st => (evalCond W D (.pred inv name args) β ywf, st)
   | .and l r, π, req, β, ywf, st =>
       let lr := evalM l (0 :: π) (reqLeftOfAnd r.vars req) β ywf st
-      lr.1.foldl (fun (acc : List (Bnd V × Bool) × St) lv =>
-        let n0 := getNode acc.2 π
-        let n := { n0 with rcache := mkCache P r.vars n0.rcache }
-        if ywf && lv.2 then
-          -- a false left value is forwarded unless it is a duplicate
-          let d := isDup P req true lv.1 n
-          if d.1 then (acc.1, setNode acc.2 π d.2) else (acc.1 ++ [(lv.1, true)], setNode acc.2 π d.2)
-        else
-          let chk := if caching then n.rcache.check (toAsg P r.vars lv.1) else (false, n.rcache)
-          let n1 := { n with rcache := chk.2 }
-          if chk.1 then
-            let fc := fromCache P req r.vars n1.rcache lv.1 n1
-            (acc.1 ++ fc.1, setNode acc.2 π fc.2)
-          else
-            let st1 := setNode acc.2 π n1
-            let rr := evalM r (1 :: π) (reqRightOfAnd req) lv.1 ywf st1
-            let n2 := getNode rr.2 π
-            let c2 := if caching then rr.1.foldl (fun c p => c.insert (toAsg P r.vars p.1) p.2) n2.rcache else n2.rcache
-            (acc.1 ++ rr.1, setNode rr.2 π { n2 with rcache := c2 })) ([], lr.2)
+      lr.1.foldl (andStep P caching π req ywf r.vars
+        (fun b s => evalM r (1 :: π) (reqRightOfAnd req) b ywf s)) ([], lr.2)
   | .elseIf l r, π, req, β, ywf, st =>
       let lr := evalM l (0 :: π) (reqLeftOfOr r.vars req) β true st
       if lr.1.isEmpty then
@@ -158,29 +195,8 @@ def evalM : Cond V → Path → ReqFn → Bnd V → Bool → St → List (Bnd V 
         let c2 := if caching then rr.1.foldl (fun c p => c.insert (toAsg P r.vars p.1) p.2) n.rcache else n.rcache
         (rr.1, setNode rr.2 π { n with rcache := c2 })
       else
-        lr.1.foldl (fun (acc : List (Bnd V × Bool) × St) lv =>
-          if lv.2 then
-            let n0 := getNode acc.2 π
-            let n := { n0 with rcache := mkCache P r.vars n0.rcache }
-            let chk := if caching then n.rcache.check (toAsg P r.vars lv.1) else (false, n.rcache)
-            let n1 := { n with rcache := chk.2 }
-            if chk.1 then
-              let fc := fromCache P req r.vars n1.rcache lv.1 n1
-              (acc.1 ++ fc.1, setNode acc.2 π fc.2)
-            else
-              let st1 := setNode acc.2 π n1
-              let rr := evalM r (1 :: π) (reqRightOfOr req) lv.1 ywf st1
-              -- true right outputs are dropped when they are duplicates; every kept output is cached
-              rr.1.foldl (fun (a2 : List (Bnd V × Bool) × St) rv =>
-                let nn := getNode a2.2 π
-                if rv.2 && !ywf then a2
-                else
-                  let d := if !rv.2 then isDup P req false rv.1 nn else (false, nn)
-                  if d.1 then (a2.1, setNode a2.2 π d.2)
-                  else
-                    let c2 := if caching then d.2.rcache.insert (toAsg P r.vars rv.1) rv.2 else d.2.rcache
-                    (a2.1 ++ [rv], setNode a2.2 π { d.2 with rcache := c2 })) (acc.1, rr.2)
-          else (acc.1 ++ [(lv.1, false)], acc.2)) ([], lr.2)
+        lr.1.foldl (orStep P caching π req ywf r.vars
+          (fun b s => evalM r (1 :: π) (reqRightOfOr req) b ywf s)) ([], lr.2)
   | .sub sel c, π, req, β, ywf, st =>
       -- An(Entity(sel, c)) in condition position: required variables of the child also include the selected ones
       let cr := evalM c (0 :: π) (fun wt => req wt ++ sel.flatMap Term.binds) β ywf st
